@@ -29,7 +29,7 @@
    (par_quicksort_model less = par_quicksort less (partition_in_blocks less); they follow from the
    `_partial` theorems and `pib_ok less (partition_in_blocks less)`.) *)
 From Coq Require Import List Bool Arith NArith Permutation.
-From NV Require Import Model.ParSort Spec.SortSpec Proofs.C18Facts.
+From NV Require Import Model.ParSort Spec.SortSpec Proofs.C18Facts Proofs.PibFacts.
 Import ListNotations.
 
 (* the slice is a permutation of its input, cancelled or not, for every comparator *)
@@ -148,6 +148,38 @@ Example C18_nonvacuous :
   r_flag (par_quicksort_model N.ltb (fun k => Nat.eqb k 0) v) = true.
 Proof. vm_compute. repeat split; auto 20. Qed.
 
+(* ---- UNCONDITIONAL versions: the block partition (partition_in_blocks, the BlockQuicksort cyclic-swap
+   loop) satisfies its contract for every comparator (Proofs/PibFacts.v), so the `_partial` theorems
+   above hold for the executable model of the whole of par_sort.rs with no hypothesis left ---------- *)
+Theorem C18_pib_contract : forall (A : Type) (less : A -> A -> bool), pib_ok less (partition_in_blocks less).
+Proof. exact PibFacts.pib_contract. Qed.
+
+Theorem C18_perm : forall (A : Type) (less : A -> A -> bool) oracle (v : list A),
+  Permutation (r_list (par_quicksort_model less oracle v)) v.
+Proof. exact PibFacts.C18_perm. Qed.
+
+Theorem C18_sorted : forall (A : Type) (less : A -> A -> bool) oracle (v : list A),
+  strict_weak_order less -> (forall k, oracle k = false) ->
+  r_flag (par_quicksort_model less oracle v) = false /\ sorted less (r_list (par_quicksort_model less oracle v)).
+Proof. exact PibFacts.C18_sorted. Qed.
+
+Theorem C18_cancel : forall (A : Type) (less : A -> A -> bool) oracle (v : list A),
+  strict_weak_order less ->
+  (r_flag (par_quicksort_model less oracle v) = true -> exists k, oracle k = true) /\
+  (r_flag (par_quicksort_model less oracle v) = false -> sorted less (r_list (par_quicksort_model less oracle v))).
+Proof. exact PibFacts.C18_cancel. Qed.
+
+Theorem C18_no_panic : forall (A : Type) (less : A -> A -> bool) oracle (v : list A),
+  forallb ev_ok (r_trace (par_quicksort_model less oracle v)) = true.
+Proof. exact PibFacts.C18_no_panic. Qed.
+
+Theorem C18_schedule_independent :
+  forall (A : Type) (less : A -> A -> bool) oracle1 oracle2 (v : list A),
+  strict_weak_order less -> total_on less v ->
+  r_flag (par_quicksort_model less oracle1 v) = false -> r_flag (par_quicksort_model less oracle2 v) = false ->
+  r_list (par_quicksort_model less oracle1 v) = r_list (par_quicksort_model less oracle2 v).
+Proof. exact PibFacts.C18_schedule_independent. Qed.
+
 Print Assumptions C18_perm_partial.
 Print Assumptions C18_sorted_partial.
 Print Assumptions C18_cancel_partial.
@@ -162,3 +194,9 @@ Print Assumptions C18_partition_partial.
 Print Assumptions C18_choose_pivot.
 Print Assumptions C18_break_patterns.
 Print Assumptions C18_cmp_total.
+Print Assumptions C18_pib_contract.
+Print Assumptions C18_perm.
+Print Assumptions C18_sorted.
+Print Assumptions C18_cancel.
+Print Assumptions C18_no_panic.
+Print Assumptions C18_schedule_independent.
